@@ -36,6 +36,10 @@ func init() {
 	// C15: the SCMP answer for a down link is built by prepareSCMP, which sizes the reply
 	// with ScmpHeaderSize(type); an under-reported size for InternalConnectivityDown runs
 	// off the headroom for 37-hop paths and the answer is never sent
+	// C36: SignerGen.bestForKey picks among "every chain valid now", which is the answer of
+	// the trust DB's Chains query; times are stored and compared as text, so the query must
+	// bind its validity bounds in UTC like the insert does (C24 Q2)
+	extend("C36", []string{"./private/storage/trust/sqlite"}, func(c *Ctx) { c24ChainQueryInUTC(c, "Q2-chain-query-in-utc") })
 	extend("C15", registry["C09"].Roots, func(c *Ctx) {
 		c.Borrow(runC09, map[string]string{"T1-scmp-header-sizes": "Z1-scmp-header-sizes"})
 	})
